@@ -48,6 +48,9 @@ def run(ctx, rep):
     r9(prog, ev, rep)
     shared.literal_exact(prog, ev, rep, "C01-R10")
     shared.selector_tables(prog, ev, rep, "C01-R11")
+    shared.slot_verbatim(ctx, rep, "C01-R12", ["Selector::Name", "SingularQuerySegment::Name", "Segment::name", "Literal::String"],
+                         "the evaluator decodes names and literals itself (normalize_json_key, prepare_regex): a second decoding "
+                         "in the parser changes which member a name selects and what a literal denotes")
     if ctx.tier == "thorough":
         from vflib import witness
         witness.report(rep, "C01-W", ['W1', 'W1b'], "compile_fail witnesses: a result (with or without path) cannot outlive the document")
